@@ -10,7 +10,8 @@ Inductive op :=
 | OGAdd (name : Z) (it : item) | OGStart (w : Z) (sh : bool) | OGDrop (n : Z) | OGResize (w : Z) | OGGen (nl : Z)
 | OCRecv (name : Z) (it : item) | OCInit (name : Z)
 | OCUp (name : Z) (it : item)       (* kind 4: an upload through the HTTP handler *)
-| OCUpIn (name seqIn tIn dur : Z).  (* kind 4: the same, number / time / shifted flag derived as the callback does *)
+| OCUpIn (name seqIn tIn dur : Z)   (* kind 4: the same, number / time / shifted flag derived as the callback does *)
+| OCUpAbort (name seq : Z).         (* kind 4: an upload that breaks after its first chunks: refused, only the file is touched *)
 
 (** [ObsHash n h]: an observation of [n] numbers given by its polynomial hash (long states) *)
 Inductive obs := ObsOk (l : list Z) | ObsHash (n h : Z) | ObsPanic (site : string).
@@ -155,6 +156,9 @@ Definition step (cs : c17case) (st : mstate) (o : op) : res (mstate * list Z) :=
       let files' := files_upload c name (i_seq it) files in
       do r <- chan_received c name it;
       Ok (ML (o_chan r) files', 200 :: flat_pub (o_pub r) ++ flat_chan (c_ntracks cs) (o_chan r) ++ flat_files files')
+  | ML c files, OCUpAbort name seq =>
+      let files' := files_upload c name seq files in
+      Ok (ML c files', [500; 0] ++ flat_chan (c_ntracks cs) c ++ flat_files files')
   | ML c files, OCUpIn name seqIn tIn dur =>
       match find_track name (c_tracks cs) with
       | None => Err "unknown track"
